@@ -273,12 +273,12 @@ pub fn build() -> Property {
         phases: vec![
             Phase {
                 name: "cuts_sampled",
-                kind: PhaseKind::Gen { cases: (192, 1600), tape_len: 400 + 64 + 2000 + 4 * 4000 + 14000 + 300, f: Box::new(|t, w| case_impl(t, w, false)) },
+                kind: PhaseKind::Gen { cases: (320, 2400), tape_len: 400 + 64 + 2000 + 4 * 4000 + 14000 + 300, f: Box::new(|t, w| case_impl(t, w, false)) },
                 threads: 16,
             },
             Phase {
                 name: "cuts_exhaustive_small",
-                kind: PhaseKind::Gen { cases: (0, 48), tape_len: 400 + 64 + 2000 + 2 * 4000 + 300, f: Box::new(|t, w| case_impl(t, w, true)) },
+                kind: PhaseKind::Gen { cases: (0, 64), tape_len: 400 + 64 + 2000 + 2 * 4000 + 300, f: Box::new(|t, w| case_impl(t, w, true)) },
                 threads: 16,
             },
         ],
